@@ -118,16 +118,16 @@ CHECKS = {
         'a function or variable occurring ANYWHERE in the parse tree (argument positions, array entries, exponents, cancelling terms) is seen by the validators and the scope check (via usage_exact), so a name outside the student\'s scope is an UndefinedVariable error independently of its value; closed form of the permitted set; instructor and sibling variables are never in scope. '
         'Tie: Formula/Matrix graders over an option grid (blacklist / whitelist / whitelist=[None] / user functions / instructor variables / numbered variables / constants / forbidden strings / required functions / metric suffixes) x cheating formulas = correct answer combined with a value-neutral term using the restricted construct in several tree positions, case/prime/numbered near-miss names, suffixes; '
         'the recorded raw verdict is handed to the model and the final outcome (result or error class with the reported names) compared; Numerical/Sum graders and sibling lists against the property oracle "never credit for a cheating formula"; get_permitted_functions against its closed form.',
-   note=PROOF_NOTE + ' Partial: the numeric verdict is a parameter (C04); evaluation errors that pre-empt a restriction are avoided by the generators. The author\'s answers using restricted constructs are exercised on the implementation only.',
+   note=PROOF_NOTE + ' Partial: the numeric verdict is a parameter (C04); evaluation errors that pre-empt a restriction are avoided by the generators. The author\'s answers using restricted constructs are exercised on the implementation only, including every subset of Sum/Integral input boxes with an author entry that uses an instructor variable (this part found and now guards defect F13, repaired in /repo; the IntegralGrader half is skipped where scipy is missing, as in the repository test environment).',
    technique='Lean 4 proof (decision logic of the validators composed with the usage-exactness theorem of the parser) + correspondence + cheating-formula oracle', design='§6 C09'),
  'C16': dict(
    text='Decision logic of between / congruence / eigenvector / vector_span / vector_phase comparers, MatrixEntryComparer and LinearComparer modelled over exact Gaussian rationals with norms compared through their squares; proved: between accepts iff real and within the closed bounds (complex refused); '
         'congruence with a positive modulus and absolute tolerance t accepts iff |student - expected - k*modulus| <= t for some integer k (circular, both sides of a multiple alike); the exact eigenvector test accepts iff v != 0 and M v = lambda v, and any rescaling of an eigenvector satisfies it (linearity of the product); '
         'the square-only magnitude test decides | |a|-|b| | <= tau; span = nonzero and residual within tolerance (exactly: residual 0), phase = span and same magnitude; MatrixEntryComparer gives full credit iff all entries match at every sample, zero iff none, otherwise the flat credit or the fraction of matching entries; '
-        'LinearComparer needs three samples, awards the largest configured credit among the relations that hold within tolerance, considers only equals/offset when either side is zero, and its equals relation at tolerance 0 is pointwise equality. '
+        'LinearComparer needs three samples, awards the largest configured credit among the relations that hold within tolerance, considers only equals/offset when either side is zero, and its equals relation at tolerance 0 is pointwise equality; each of its four closed-form fit errors is proved to be the least squared residual over the lines of its shape (least squares over the rationals, attained), so a relation is credited iff some admissible line fits the samples within the tolerance relative to the expected samples (holds_iff_fit, linear_credit_spec; defect F12 repaired). '
         'Tie: the real comparer functions called with the grader\'s own utils on exact dyadic targets x members built by the defining transformation x non-members at controlled distance x tolerance kinds x partial-credit settings (the same LinearComparer object serving several calls), compared with the model and an exact Fraction oracle; '
         'Formula/Matrix graders with each comparer on member/non-member formulas; the answer_shape_mismatch policy grid.',
-   note=PROOF_NOTE + ' Partial: np.linalg.lstsq and the floating-point norms are not modelled (the exact squared least-squares residual is computed by the harness; a relative guard band of 1e-6 around the tolerance boundary is skipped and counted); LinearComparer is modelled for real scalar samples. Finding F9 (between_comparer raised on real values of complex type) was repaired in /repo.',
+   note=PROOF_NOTE + ' Partial: np.linalg.lstsq and the floating-point norms are not modelled (the exact squared least-squares residual is computed by the harness; a relative guard band of 1e-6 around the tolerance boundary is skipped and counted); LinearComparer is modelled for real scalar samples. Findings F9 (between_comparer raised on real values of complex type) and F12 (LinearComparer took its percentage tolerance relative to the student samples, so huge unrelated submissions earned proportional credit) were repaired in /repo.',
    technique='Lean 4 proof (floor/mod arithmetic for circular congruence, linearity of matrix-vector products, squared-norm decision lemmas, max-selection spec) + correspondence + exact Fraction oracle', design='§6 C16'),
  'C14': dict(
    text='MathArray.__add__/__radd__/__sub__/__rsub__/__mul__/__rmul__/__truediv__/__rtruediv__/__pow__/__rpow__ (with the number-zero, one-element-array and same-shape rules, np.dot shape rule with the 1x1 collapse, tensor refusal, square + integer-like exponent test, negative-power switch, inverse for negative powers, singular refusal) '
@@ -171,7 +171,7 @@ CHECKS = {
         '(including calls that raise in validation, in the input check or in grading): the next call returns what a freshly constructed grader returns for the current expect value or the last successfully supplied one; '
         'configured answers ignore expect; the debug log shown by a call mentions only that call; the log flag is always cleared; the process-wide negative-power switch is back at its default after any history of MatrixGrader calls (returning or raising); construction copies the configuration so that no list or dictionary of the author (also inside tuples) is shared with the grader (object-identity model of coerce2unicode). '
         'Tie: call histories (short exhaustive sample + random longer) on String/Table/SingleList/Formula/Numerical/Matrix/Interval/LinearComparer graders, configured/unconfigured, debug on/off, vs the model instantiated with outcome tables measured on fresh graders and vs fresh instances; '
-        'snapshot checks of author config objects, evaluator scopes, class-level defaults, MathArray switch, numpy error state, other grader instances and the process-wide parser.',
+        'snapshot checks of author config objects (incl. subgrader objects under debugged parents), evaluator scopes, class-level defaults, MathArray switch, numpy error state, other grader instances and the process-wide parser; registered class defaults (register_defaults): object-identity model of apply_registered_defaults with theorems defaults_no_alias / defaults_precedence / defaults_history, compared with the real method on histories of calls including key order and object identity.',
    note=PROOF_NOTE + ' Two aliasing mechanisms are modelled with object identities and proved (coerce2unicode freshness: constructor_no_alias; the negative-power context manager: negative_powers_history) and tied by identity correspondence; the remaining clauses (evaluator scopes, default tables, numpy error state, class defaults, other instances) are snapshot-compared per case, not proved. The theorems describe the code as repaired by the fix: commits F1-F3.',
    technique='Lean 4 proof (refinement of a call state machine to "fresh grader", induction over histories) + history correspondence + snapshot monitor', design='§6 C11'),
 }
